@@ -4,3 +4,8 @@ import Dm.Props.C03
 #print axioms Dm.Props.C03.formats_agree_nospec_partial
 #print axioms Dm.Props.C03.placeholders_agree_nospec_partial
 #print axioms Dm.Props.C03.asciiSane
+#print axioms Dm.Props.C03.formats_agree
+#print axioms Dm.Props.C03.placeholders_agree
+#print axioms Dm.Props.C03.accepted_literals_are_derivations
+#print axioms Dm.Props.C03.asciiSane2
+#print axioms Dm.Fmt.formatSpec_render
